@@ -50,11 +50,11 @@ PROPS = {
 
 PROPS["C13"] = {
     "level": "proof",
-    "lean_modules": ["Rain.Props.C13", "Rain.Props.Lru"],
-    "components": ["c13", "lru"],
-    "sig_prefixes": ["c13:", "lru:"],
+    "lean_modules": ["Rain.Props.C13", "Rain.Props.Lru", "Rain.Props.BinSearch"],
+    "components": ["c13", "lru", "binsearch"],
+    "sig_prefixes": ["c13:", "lru:", "c09:"],
     "title": "Table files give back exactly what was put in",
-    "technique": "Lean 4 theorems (block round trip, separator/successor bounds, Table::get = first-entry-at-or-after specification and TwoLevelIterator = flat cursor for EVERY partition into blocks and every cursor program) + differential test of BlockBuilder/BlockReader/TableBuilder/Table/TwoLevelIterator against the compiled model and the specification + LRU cache model (table cache, block cache): Lean 4 proofs that for every operation sequence a hit is the last value inserted for that key, never another key's or an older one (cache_contents_sound, cache_answers_sound), size <= capacity, recently used keys stay; the real LRUCache is run against the model on generated sequences and hammered from several threads",
+    "technique": "Lean 4 theorems (block round trip, separator/successor bounds, Table::get = first-entry-at-or-after specification and TwoLevelIterator = flat cursor for EVERY partition into blocks and every cursor program) + differential test of BlockBuilder/BlockReader/TableBuilder/Table/TwoLevelIterator against the compiled model and the specification + LRU cache model (table cache, block cache): Lean 4 proofs that for every operation sequence a hit is the last value inserted for that key, never another key's or an older one (cache_contents_sound, cache_answers_sound), size <= capacity, recently used keys stay; the real LRUCache is run against the model on generated sequences and hammered from several threads + the binary searches of the code as loops (Rain/BinSearch: find_file_with_upper_bound_range, BlockIter::seek) proved equal to the linear specifications the other models use on every sorted input, in range on any input, logarithmic; the real functions run against the loop model on synthetic levels and real blocks (component binsearch)",
     "level_text": "Machine-checked proof over the Lean model of block_builder.rs / block.rs / table_builder.rs / table.rs / key.rs / bytes.rs for every sorted entry list, every partition into non-empty blocks (hence every max_block_size), every lookup and every cursor program; tied to the code on every run by byte-exact block comparison, structural table dumps (partition, index keys) and answer-for-answer comparison of lookups and cursor programs on tables built by the real TableBuilder; the specification itself (first entry at or after the target decides: value / deletion / not in this file) is evaluated on the implementation.",
     "design_ref": "5 (C13)",
     "trusted_base": COMMON_TB + [
@@ -105,8 +105,8 @@ LSM_TB = DB_TB + [
 ]
 PROPS["C01"] = {
     "level": "proof", "title": "Reads return the latest committed write, wherever the data lives",
-    "lean_modules": ["Rain.Props.Lsm", "Rain.Props.Lru"], "components": ["lsm", "lru", "disk"], "sig_prefixes": ["c01:", "c07:", "c10:", "c09:", "lru:", "disk:"],
-    "technique": "Lean 4 refinement proof (DB::get = newest entry at or below the bound over memtable / immutable memtable / level-0 files / deeper levels; every transition preserves invariant and views; C01_reads_latest for every action list) + trace validation of the real worker's transitions against the proved relation + BTreeMap oracle + LRU cache model (table cache, block cache): Lean 4 proofs that for every operation sequence a hit is the last value inserted for that key, never another key's or an older one (cache_contents_sound, cache_answers_sound), size <= capacity, recently used keys stay; the real LRUCache is run against the model on generated sequences and hammered from several threads + the same oracles on the crate's real disk-backed filesystem (TmpFileSystem in a scratch directory): generated histories with clean close + reopen and a log appended to in two sessions",
+    "lean_modules": ["Rain.Props.Lsm", "Rain.Props.Lru", "Rain.Props.BinSearch"], "components": ["lsm", "lru", "disk", "binsearch"], "sig_prefixes": ["c01:", "c07:", "c10:", "c09:", "lru:", "disk:"],
+    "technique": "Lean 4 refinement proof (DB::get = newest entry at or below the bound over memtable / immutable memtable / level-0 files / deeper levels; every transition preserves invariant and views; C01_reads_latest for every action list) + trace validation of the real worker's transitions against the proved relation + BTreeMap oracle + LRU cache model (table cache, block cache): Lean 4 proofs that for every operation sequence a hit is the last value inserted for that key, never another key's or an older one (cache_contents_sound, cache_answers_sound), size <= capacity, recently used keys stay; the real LRUCache is run against the model on generated sequences and hammered from several threads + the same oracles on the crate's real disk-backed filesystem (TmpFileSystem in a scratch directory): generated histories with clean close + reopen and a log appended to in two sessions + the binary searches of the code as loops (Rain/BinSearch: find_file_with_upper_bound_range, BlockIter::seek) proved equal to the linear specifications the other models use on every sorted input, in range on any input, logarithmic; the real functions run against the loop model on synthetic levels and real blocks (component binsearch)",
     "level_text": "Machine-checked proof over the LSM model (read path exactly as Version::get searches, all transitions guarded only by validity predicates, no size thresholds, hence every DbOptions): for every history a get at the latest sequence number returns the most recent write. " + LSM_TIE + ".",
     "design_ref": "5 (C01)", "trusted_base": LSM_TB,
     "assumptions": ["single client (concurrency is C05/C06)", "Table::get meets its specification lookupSorted (proved for the table model in C13, filters never cut a lookup short: C14)"],
@@ -129,8 +129,8 @@ PROPS["C10"] = {
 }
 PROPS["C03"] = {
     "level": "proof", "title": "A snapshot or iterator sees exactly the state at its creation, forever",
-    "lean_modules": ["Rain.Props.Lsm", "Rain.Props.C04", "Rain.Props.Proto"], "components": ["lsm"], "sig_prefixes": ["c03:", "c07:", "c09:"],
-    "technique": "Lean 4 proofs: C03_snapshot_stable (a get at a snapshot is unchanged by any later writes, rotations, flushes, trivial moves and compactions that respect the snapshot), C04_visible_is_view (iteration and get agree), C05_cut_stable (a cut keeps seeing the same memtable entries) + frozen-oracle comparison of live snapshots and kept-open iterators across flushes, compactions and file deletion on the real database",
+    "lean_modules": ["Rain.Props.Lsm", "Rain.Props.C04", "Rain.Props.Proto"], "components": ["lsm", "c06"], "sig_prefixes": ["c03:", "c07:", "c09:", "c06:"],
+    "technique": "Lean 4 proofs: C03_snapshot_stable (a get at a snapshot is unchanged by any later writes, rotations, flushes, trivial moves and compactions that respect the snapshot), C04_visible_is_view (iteration and get agree), C05_cut_stable (a cut keeps seeing the same memtable entries) + frozen-oracle comparison of live snapshots and kept-open iterators across flushes, compactions and file deletion on the real database + directed schedules (component c06): a writer applying a multi-key batch is parked at every stage (before / after the WAL append, between memtable insertions, after the last insertion); a snapshot taken and gets / scans made meanwhile must show the state before the batch, and the same snapshot must still show it after the writer has finished",
     "level_text": "Machine-checked proofs over the LSM, iterator and protocol models for every later action list and every number of simultaneously live snapshots. " + LSM_TIE + "; histories take snapshots and open iterators at random points and keep them across later writes, flushes, automatic/manual/seek-triggered compactions and obsolete-file deletion; every live snapshot is re-read (gets + scans) against its frozen oracle copy, kept iterators are scanned completely when closed.",
     "design_ref": "5 (C03)", "trusted_base": LSM_TB,
     "assumptions": ["the smallest-snapshot value a compaction uses is at most every live snapshot (checked on every recorded compaction: smallest_snapshot is part of the event and of validCompaction)", "version pinning (files of a pinned version are not deleted) is checked by the C11 directory checks"],
@@ -203,7 +203,7 @@ PROPS["C06"] = {
 }
 PROPS["C09"] = {
     "level": "proof", "title": "Every operation terminates; the background worker never dies",
-    "lean_modules": ["Rain.Props.Sched", "Rain.Props.Proto", "Rain.Props.Lsm", "Rain.Props.C14", "Rain.Props.Score", "Rain.Props.Potential", "Rain.Props.Seek"], "components": ["c09", "score"], "sig_prefixes": ["c09:"],
+    "lean_modules": ["Rain.Props.Sched", "Rain.Props.Proto", "Rain.Props.Lsm", "Rain.Props.C14", "Rain.Props.Score", "Rain.Props.Potential", "Rain.Props.Seek", "Rain.Props.BinSearch"], "components": ["c09", "score"], "sig_prefixes": ["c09:"],
     "technique": "Lean 4 proofs over a model of the background-work protocol (scheduled flag, task channel, condition variable, shutdown): invariant for every reachable state (work is never left unscheduled, a sleeper always has a waker, the flag matches queued/running tasks), every worker task decreases a potential or sets the sticky error, every worker-only run is bounded by 2*potential and ends with every wait condition false (C09_inv, C09_sleeper_has_waker, C09_blocked_writer_has_worker, C09_worker_task_progress, C09_worker_runs_are_bounded, C09_worker_idle_means_nobody_waits, C09_waiters_are_released[_without_failure]); writer-queue progress (C09_writer_progress); which compaction runs: model of Version::finalize + VersionSet::pick_compaction with the loop bound, trigger and limits regenerated from the sources, proved never to ask for a compaction of the last level or of an empty level (the two panics of pick_compaction; C09_code_pick_never_panics) and always to pick one when the score asks for it (C09_size_compaction_is_picked_of_inv), compared with the real functions on synthetic versions; table work terminates: an entry-weighted depth potential strictly decreases with every valid table compaction and trivial move and only writes raise it (C09_compaction_decreases_potential, C09_table_work_is_bounded: #table operations <= 6 x #entries written); totality of every model function; the model's invariant evaluated on every scheduling step and on sampled states of the real database; watchdog scenarios and a panic hook on the real code",
     "level_text": "Proved for every reachable state and every interleaving of the protocol model: the flag/channel/condvar protocol between clients (memtable rotation, manual compaction, seek-triggered work, waits in make_room_for_write / compact_range / Drop) and the single worker cannot lose a wake-up or deadlock, and the worker alone releases every waiter within 2*potential steps (potential = pending flush + manual rounds + compaction work; for table compactions such a potential is exhibited and proved over the LSM model: every transition the real worker performs is validated against that model's transition relation, and Rain.Props.Potential proves that each valid table compaction or trivial move lowers the entry-weighted depth sum(6 - level) by at least the number of entries taken from the upper level); the choice of the compaction (level scores, seed file after the compaction pointer) is modelled with the code's own constants and proved never to hit pick_compaction's two panics and to return a non-empty valid compaction whenever the score asks for one; the writer hand-off cannot deadlock; every modelled read path is a total function (kernel-checked termination, no partial/unsafe); the LSM invariant excludes the layouts on which the version builder panics. Tied to the code on every run: the real database records every 'schedule' / worker 'start' / 'finish' step inside the critical section that performs it, and a sampler thread dumps the state whenever the mutex is free; the model's invariant (through the driver, with L0 trigger/stop regenerated from the sources) is evaluated on every recorded step (~20 000 per quick run) and every distinct sampled observation (~80 000 samples). What no model here exhibits - lock re-entrancy, thread joins, panics, a wait that re-checks a stale condition - is decided by running the real code: every harness-issued call runs under a watchdog with a process-wide panic hook; the C09 component drives every descriptor kind, sustained multi-threaded writes through the memtable-full / L0-slowdown / L0-stop waits with concurrent manual compactions, close immediately afterwards, close with live iterators, degenerate option values, snapshots/iterators from several threads. Hangs and worker deaths found this way (D4, D12, D13) are repaired and kept as corpus.",
     "design_ref": "5 (C09), 0.2",
